@@ -51,13 +51,24 @@ def _fault(seam, counter):
         raise AssertionError("unknown callback fault %r" % kind)
 
 
+def _reject(text, value):
+    """Raise the rejection; remember the exception OBJECT so that the oracle
+    can ask for 'the original exception'.  Every other one carries no message
+    at all (a legal way to raise ValueError)."""
+    exc = ValueError() if len(value) % 2 == 0 else ValueError(text)
+    w = WORLD
+    if w is not None:
+        w.raised.append(exc)
+    raise exc
+
+
 def _mk_conv(n):
     memo = {}
 
     def conv(value):
         _fault("conv", "n_conv")
         if value.startswith("!"):
-            raise ValueError("conv_%d rejects %r" % (n, value))
+            _reject("conv_%d rejects %r" % (n, value), value)
         if n == 7:
             if value not in memo:
                 memo[value] = "c%d:%s" % (n, value)
@@ -71,7 +82,7 @@ def _mk_keytype(n):
     def keytype(value):
         _fault("keytype", "n_keytype")
         if not value[:1].isalpha():
-            raise ValueError("keytype_%d rejects %r" % (n, value))
+            _reject("keytype_%d rejects %r" % (n, value), value)
         return value.lower()
     keytype.__name__ = "keytype_%d" % n
     return keytype
